@@ -136,6 +136,7 @@ def step (s : St) (line : String) : St × String :=
       | none => (s, bad3)
   | ["suspend", cnv, clv, row, col, sty] =>
       if impl = "hang" then (s, "-\thang\tFAIL Suspend never returns") else
+      if impl = "panic" then (s, "-\tpanic\tFAIL Suspend panicked") else
       match lex impl with
       | some itoks =>
         let cn : CursorState := { row := row.toInt?.getD 0, col := col.toInt?.getD 0, style := sty.toNat?.getD 0, visible := b cnv }
@@ -155,6 +156,7 @@ def step (s : St) (line : String) : St × String :=
       | none => (s, bad3)
   | ["close", cnv, clv, closed, row, col, sty] =>
       if impl = "hang" then (s, "-\thang\tFAIL Close never returns") else
+      if impl = "panic" then (s, "-\tpanic\tFAIL Close panicked (a second Close must be harmless)") else
       match lex impl with
       | some itoks =>
         let cn : CursorState := { row := row.toInt?.getD 0, col := col.toInt?.getD 0, style := sty.toNat?.getD 0, visible := b cnv }
@@ -166,6 +168,7 @@ def step (s : St) (line : String) : St × String :=
   | ["closesuspended"] =>
       -- Close while suspended (no Resume): must return, and writes nothing more
       if impl = "hang" then (s, "toks=0\thang\tFAIL Close while suspended never returns") else
+      if impl = "panic" then (s, "toks=0\tpanic\tFAIL Close while suspended panicked") else
       match lex impl with
       | some itoks =>
         let w := closeW s.env false { s.w with wire := [] }
